@@ -21,7 +21,7 @@ func (fgen *funcGen) newInst(old ast.Instruction) (ir.Instruction, error) {
 		if err != nil {
 			return nil, err
 		}
-		fgen.recordExplicitID(ident, inst)
+		fgen.recordExplicitID(ident, old.Name().Text(), inst)
 		return inst, nil
 	case ast.ValueInstruction:
 		unnamed := ir.LocalIdent{}
